@@ -40,6 +40,18 @@ class AlienError(LookupError):
         return PlantedError.get_message(self)
 
 
+class UncopyableError(PlantedError):
+    """a GlomError subclass whose constructor cannot be re-run on its .args (glom() cannot copy it and
+    finalizes the original object in place)"""
+    def __init__(self, n, limit):
+        self.n = n
+        GlomError.__init__(self, 'planted %d' % n)
+
+    def get_message(self):
+        return 'planted %d' % self.n
+
+
+UNCOPYABLE = [False]
 MULTILINE_FOR = [0]     # leaf execution number whose PlantedError carries a multi-line message
 
 
@@ -97,7 +109,7 @@ class Leaf:
         r.leaf += 1
         n = r.leaf
         if n <= len(r.plan) and r.plan[n - 1] == 'err':
-            e = PlantedError(n)
+            e = UncopyableError(n, 9) if UNCOPYABLE[0] else PlantedError(n)
             if NOTES[0]:
                 e.add_note('(note for planted %d)' % n)
             raise e
@@ -270,6 +282,8 @@ def build(tree, run, path=(), index=None):
         return build(c[i], run, path + (i + 1,), index)
     if k in ('new', 'same', 'copy', 'fail'):
         s = Leaf(run, k, path)
+    elif k == 'typ':
+        s = int         # a plain type: a Match-mode pattern no target of the universe satisfies
     elif k == 'smiss':
         s = getattr(S, 'nope%s' % ''.join(str(i) for i in path))
     elif k == 'iter':
@@ -453,7 +467,7 @@ class BadLenTok(BigTok):
 NOTES = [False]     # planted errors carry a PEP 678 note (a second line after 'Type: message')
 
 
-def execute(tree, plan, caller_scope=None, hook=True, prebuilt=None, big_root=False, multiline_for=0, flavour='vars', notes=False):
+def execute(tree, plan, caller_scope=None, hook=True, prebuilt=None, big_root=False, multiline_for=0, flavour='vars', notes=False, uncopyable=False):
     """run the real library on the realisation of tree; returns dict(out, log, events, error).
     prebuilt: (spec, run, index) of an earlier execute() -- evaluates the SAME spec objects again"""
     if prebuilt is not None:
@@ -473,13 +487,17 @@ def execute(tree, plan, caller_scope=None, hook=True, prebuilt=None, big_root=Fa
     Tok._cache.clear()
     MULTILINE_FOR[0] = multiline_for
     NOTES[0] = notes
+    UNCOPYABLE[0] = uncopyable
     kw = {}
     if caller_scope is not None:
         kw['scope'] = caller_scope
     try:
         try:
             root = Tok((0,))
-            if big_root:
+            if big_root == 'deque':
+                import collections
+                root = collections.deque([Tok((0, 1)), Tok((0, 2)), 3, 4, 5, 6, 7, 8, 9])
+            elif big_root:
                 root = object.__new__(BadLenTok if big_root == 'badlen' else BigTok)
                 root.ident, root.eqclass = (0,), (0,)
             res = _glom_fn(root, spec, **kw)
@@ -489,6 +507,7 @@ def execute(tree, plan, caller_scope=None, hook=True, prebuilt=None, big_root=Fa
     finally:
         MULTILINE_FOR[0] = 0
         NOTES[0] = False
+        UNCOPYABLE[0] = False
         if hook:
             glom.core._verif_install(None)
     out.update(log=run.log, events=normalise(rec.events), spec=spec, index=index, prebuilt=(spec, run, index))
